@@ -33,9 +33,17 @@ func (P *projPoint) getXY() (x, y *mod.Int) {
 	return &P.X, &P.Y
 }
 
+// normalized returns a normalized copy of P. Encoding, printing and data
+// extraction work on it so that they never write to a (possibly shared) point.
+func (P *projPoint) normalized() *projPoint {
+	Q := P.Clone().(*projPoint) //nolint:errcheck // Clone returns a *projPoint
+	Q.normalize()
+	return Q
+}
+
 func (P *projPoint) String() string {
-	P.normalize()
-	return P.c.pointString(&P.X, &P.Y)
+	Q := P.normalized()
+	return Q.c.pointString(&Q.X, &Q.Y)
 }
 
 func (P *projPoint) MarshalSize() int {
@@ -43,8 +51,8 @@ func (P *projPoint) MarshalSize() int {
 }
 
 func (P *projPoint) MarshalBinary() ([]byte, error) {
-	P.normalize()
-	return P.c.encodePoint(&P.X, &P.Y), nil
+	Q := P.normalized()
+	return Q.c.encodePoint(&Q.X, &Q.Y), nil
 }
 
 func (P *projPoint) UnmarshalBinary(b []byte) error {
@@ -125,8 +133,8 @@ func (P *projPoint) Pick(rand cipher.Stream) kyber.Point {
 
 // Extract embedded data from a point group element
 func (P *projPoint) Data() ([]byte, error) {
-	P.normalize()
-	return P.c.data(&P.X, &P.Y)
+	Q := P.normalized()
+	return Q.c.data(&Q.X, &Q.Y)
 }
 
 // Add two points using optimized projective coordinate addition formulas.
